@@ -47,7 +47,7 @@ def floors(tier):
     f = {"groups": 300, "schedules": 5000, "schedules_exhaustive_groups": 100, "thread_runs": 100,
          "thread_validations": 5000, "thread_runs_20plus_switches": 50, "observed_switches": 2000,
          "distinct_interleaving_signatures": 50}
-    for k in ("refs", "remote", "regex", "format", "types", "same-schema-object", "verdicts", "dollar-schema", "decimal", "handed-on-store", "custom-scheme-root", "shared-handler-document", "types-argument", "unserved-by-some", "late-registration"):
+    for k in ("refs", "remote", "regex", "format", "types", "same-schema-object", "verdicts", "dollar-schema", "decimal", "handed-on-store", "custom-scheme-root", "shared-handler-document", "types-argument", "unserved-by-some", "late-registration", "subclassed-keyword"):
         f["collision:" + k] = 25 if k in ("refs", "regex", "same-schema-object", "verdicts", "handed-on-store", "custom-scheme-root") else 15
     return f
 
@@ -110,6 +110,15 @@ def make_member(rng, d, k, kinds, link=None):
             udoc = {"definitions": {"q": rng.choice(LEAVES)}, "type": "object"}
             handlers = dict(handlers, http=(lambda url, udoc=udoc: udoc))
             props["un2"] = {"$ref": U_}
+    if "subclassed-keyword" in kinds:
+        props["sk1"] = {"vf-odd-length": True}
+        props["sk2"] = {"items": {"vf-odd-length": True, "title": "only the subclass knows this keyword"}}
+        if k % 2 == 1:
+            def odd_length(validator, value, instance, schema):
+                if isinstance(instance, (str, list)) and len(instance) % 2 == 0:
+                    yield X.ValidationError("%r has an even length" % (instance,))
+            base_ = cls
+            cls = type("VfSub%d" % k, (base_,), {"VALIDATORS": dict(base_.VALIDATORS, **{"vf-odd-length": odd_length})})
     late = None
     if "late-registration" in kinds and k == 1:
         late_id = impl.META_ID[d]
@@ -245,6 +254,10 @@ def group_plan(gseed):
         # member 1 first registers a dialect of its own under a metaschema id that is already registered (a patched copy
         # of a bundled draft) and then refers to that URI; the others were built before or after, and refer to nothing of it
         kinds = {"late-registration", "regex"}
+    elif rng.random() < 0.12:
+        # the odd members' class is a Python subclass of the draft class with a keyword table of its own (one more keyword);
+        # the even members use the draft class itself
+        kinds = {"subclassed-keyword", "regex"}
     elif rng.random() < 0.15:
         # member 0 cannot retrieve a document (no handler: its iteration ends in RefResolutionError); the others serve the very
         # same URL through handlers of their own
